@@ -3,6 +3,7 @@
 use engine::*;
 use std::sync::atomic::{AtomicUsize, Ordering};
 use sux::bit_vec;
+use crate::words::hinted;
 use sux::bits::{AtomicBitVec, BitVec};
 use sux::traits::{BitCount, BitLength};
 
@@ -331,7 +332,7 @@ impl Property for C06 {
         ]
     }
     fn rule(&self) -> &'static str {
-        "case = (construction route, <=60 ops incl. a Scribble op that writes garbage through the safe AsMut<[usize]> into the backend bits beyond len) decoded from bytes; model = Vec<bool>; whole observable state (len, iter, get/index of every position) compared after every op. Every iterator is also driven through a generated script of next/nth/size_hint steps and one consuming adaptor (count, last, collect, step_by, skip, fold) in lock-step with the model's iterator. Equality is also taken between the vector and borrowed views over its own words (same length: equal; one bit shorter: different). Non-trivial: a shrink (pop/resize down) followed by an observation of ones/zeros/count/equality, or a fill/flip/reset mixed with a push/resize; distinct = distinct hash of the decoded history."
+        "case = (construction route, <=60 ops incl. extend from iterators with exact / (0,Some(n)) / (0,Some(usize::MAX)) / (0,None) size hints and a Scribble op that writes garbage through the safe AsMut<[usize]> into the backend bits beyond len) decoded from bytes; model = Vec<bool>; whole observable state (len, iter, get/index of every position) compared after every op. Every iterator is also driven through a generated script of next/nth/size_hint steps and one consuming adaptor (count, last, collect, step_by, skip, fold) in lock-step with the model's iterator. Equality is also taken between the vector and borrowed views over its own words (same length: equal; one bit shorter: different). Non-trivial: a shrink (pop/resize down) followed by an observation of ones/zeros/count/equality, or a fill/flip/reset mixed with a push/resize; distinct = distinct hash of the decoded history."
     }
     fn run(&self, data: &[u8], cx: &mut Ctx) -> R {
         let (mode, rest) = data.split_first().unwrap_or((&0, &[]));
@@ -457,7 +458,10 @@ impl Property for C06 {
                             model.resize(*n, *b);
                         }
                         Op::Extend(l) => {
-                            cx.must("extend", || v.extend(l.iter().copied()))?;
+                            // the same bits behind iterators with different size hints
+                            let kind = (l.len() as u64).wrapping_mul(0x9E37) >> 3;
+                            cx.label_if(kind % 5 == 2, "extend_hint_upper=usize::MAX");
+                            cx.must("extend", || v.extend(hinted(l, kind)))?;
                             model.extend(l.iter().copied());
                             grew |= !l.is_empty();
                         }
